@@ -688,6 +688,8 @@ class BuiltinMixin:
     def bi_field(self, args, kw, st, cx, node):
         "field(obj, 'name'[, 'Class']) raw heap read (no property/method resolution, no absent check)"
         obj = args[0]
+        if isinstance(obj, VNone):
+            obj = VRef(z3.IntVal(0), None)  # a field of None: the (unconstrained) cell of the null reference -- nothing can be proved from it
         cls = args[2].conc() if len(args) > 2 else obj.cls
         if len(args) <= 2:
             nm = args[1].conc()
